@@ -84,3 +84,9 @@ m("C10-finalize-else", "C10", "renderable/_types.py", "            try:\n       
 m("C10-init-render-finalize-inverted", "C10", "renderable/_renderable.py", "        finally:\n            if finalize:\n                render_data.finalize()", "        finally:\n            if not finalize:\n                render_data.finalize()")
 m("C06-height-ge", "C06", "renderable/_renderable.py", "                if not allow_scroll and height > terminal_height:", "                if not allow_scroll and height >= terminal_height:")
 m("C06-width-unchecked", "C06", "renderable/_renderable.py", "                if width > terminal_width:", "                if width > terminal_width + 1:")
+# ---- Padding.pad placement
+m("C05-pad-bottom-short", "C05", "padding.py", 'bottom_padding = f"\\n{fill * width}" * bottom if bottom else ""', 'bottom_padding = f"\\n{fill * (width - 1)}" * bottom if bottom else ""')
+m("C05-pad-replace-swapped", "C05", "padding.py", 'render.replace("\\n", f"{right_padding}\\n{left_padding}")', 'render.replace("\\n", f"{left_padding}\\n{right_padding}")')
+m("C05-pad-top-uses-left", "C05", "padding.py", 'top_padding = f"{fill * width}\\n" * top if top else ""', 'top_padding = f"{fill * width}\\n" * left if top else ""')
+m("C05-pad-empty-fill-writes", "C05", "padding.py", "            left_padding = cursor_forward(left)\n", "            left_padding = ' ' * left\n")
+m("C05-pad-vertical-only-skips-right", "C05", "padding.py", "        horizontal = left or right", "        horizontal = left")
